@@ -1250,6 +1250,9 @@ func (x *Exec) checkInvs(ls *LoopSpec, st *State, kind string, ord int, pos toke
 			suffix += x.pathTag
 			o := x.c.oblige(kind, suffix, st.pc, part, pos, inv.Text)
 			o.Split = x.splitTerms(ls, env)
+			if x.contract != nil && x.contract.Sequential {
+				x.c.assume(st.pc, part) // later clauses of the same check may use earlier ones (each is an obligation of its own)
+			}
 		}
 	}
 	if y, ok := st.ghost["stopped"]; ok && x.contract != nil && x.contract.Yields != "" {
@@ -1293,11 +1296,15 @@ func (x *Exec) execFor(n *ast.ForStmt, st *State, label string) *State {
 	if ls == nil && x.contract != nil && !x.contract.Thin {
 		x.c.notes = append(x.c.notes, fmt.Sprintf("loop %d at %s has no invariant (treated as 'true')", ord, x.c.posOf(n)))
 	}
+	st.ghost["IT"] = scInt("0") // ghost: number of completed iterations of this (innermost) for loop
 	x.takeSnapshots(ls, st, n.Body.Lbrace)
 	x.checkInvs(ls, st, "inv-entry", ord, n.Body.Lbrace)
 	ms := x.modifiedIn(n.Body, n.Post, n.Cond)
 	head := st.clone()
 	x.havoc(head, ms, fmt.Sprintf("L%d", ord))
+	itv := x.c.fresh(fmt.Sprintf("L%d.IT", ord), SInt)
+	x.c.assume(head.pc, tGe(itv, "0"))
+	head.ghost["IT"] = scInt(itv)
 	x.assumeInvs(ls, head, n.Body.Lbrace)
 	var decBefore string
 	if ls != nil && ls.Dec != nil {
@@ -1341,6 +1348,7 @@ func (x *Exec) execFor(n *ast.ForStmt, st *State, label string) *State {
 		if len(paths) > 1 {
 			x.pathTag = fmt.Sprintf("@p%d", pi+1)
 		}
+		back.ghost["IT"] = scInt(tAdd(itv, "1"))
 		x.reach(back, n.Body.Rbrace, fmt.Sprintf("back edge of loop %d", ord))
 		x.checkInvs(ls, back, "inv-keep", ord, n.Body.Lbrace)
 		if decBefore != "" {
